@@ -50,6 +50,31 @@ def _mode(fmt):
     return rt._mode(fmt, _VAR[0])
 
 
+_INTERLOPERS = []
+_INTERLOPER_DOCS = [
+    'ver:"3.0"\nts,v\n2021-01-15T12:30:00-08:00,1\n2021-07-15T12:30:00-08:00,2\n2021-07-15T12:30:00-07:00,3\n',
+    'ver:"2.0"\nts,v\n2021-07-15T12:30:00+01:00,1\n2021-01-15T12:30:00+01:00,2\n2021-01-15T12:30:00Z,3\n',
+    'ver:"3.0"\nts,v\n2021-03-01T00:00:00+05:30,[2021-07-01T00:00:00-10:00, "x"]\n2021-11-01T00:00:00+10:00,{a:2021-01-01T00:00:00+10:00}\n',
+    'ver:"3.0" m:2021-06-01T06:00:00-05:00\na z:2021-12-01T06:00:00-05:00,b\n"s",`u`\n@r "d",1kW\n',
+]
+
+
+def interlopers(var):
+    """two small parser-made grids (zone-less date-times of both seasons, strings, refs) to be dumped between two dumps
+    of the grid under test; parsed once per process"""
+    import hszinc
+    if not _INTERLOPERS:
+        for t in _INTERLOPER_DOCS:
+            try:
+                _INTERLOPERS.append(hszinc.parse(t, mode=hszinc.MODE_ZINC, single=True))
+            except Exception:      # noqa - a tree that cannot read one of them simply has fewer interlopers
+                pass
+    if not _INTERLOPERS:
+        return []
+    n = len(_INTERLOPERS)
+    return [_INTERLOPERS[var % n], _INTERLOPERS[(var // n + 1) % n]]
+
+
 def check(case):
     """case = {'src': 'zinc'|'json', 'grids': [models], 'choices': [...], 'multi': bool}"""
     import hszinc
@@ -77,6 +102,16 @@ def check(case):
         t1b = guarded('redump-raises', shown, hszinc.dump, arg, mode=_mode(fmt))
         if t1 != t1b:
             raise Violation('dump-not-deterministic', shown, 'two %s dumps of one grid differ' % fmt, (fmt,))
+        # ... also when other grids were dumped in between (a pure function of the grid does not remember them)
+        for other in interlopers(len(doc)):
+            try:
+                hszinc.dump(other, mode=_mode('zinc'))
+                hszinc.dump(other, mode=_mode('json'))
+            except Exception:      # noqa - what happens to the interloper is not this case's subject
+                pass
+        t1c = guarded('redump-raises', shown, hszinc.dump, arg, mode=_mode(fmt))
+        if t1 != t1c:
+            raise Violation('dump-not-deterministic', shown, 'two %s dumps of one grid differ after other grids were dumped in between' % fmt, (fmt, 'interleaved'))
         for b, g, rb, raw in zip(base, g0s, rows_before, raw_before):
             d = model.diff(b, model.to_model(g))
             if not d and model.raw_snapshot(g) != raw:
